@@ -91,7 +91,7 @@ def runner(prop, fam, tier, seed, replay=None):
             cov["transitions"] += sum(d["transitions"] for d in design_stats)
             cov["design_counterexamples_of_the_code_as_found"] = cex
             ev["wall_s"] = round(time.time() - t0, 2)
-            tmp = p + ".tmp"
+            tmp = p + ".tmp%d" % os.getpid()
             json.dump(ev, open(tmp, "w"), indent=1, sort_keys=True)
             os.replace(tmp, p)
         except Exception as e:
